@@ -1024,14 +1024,13 @@ theorem cleanup_exact_singletons_isolates {s : HG} (hs : Live s) (r : HG × Outc
     rw [hs']; exact (stageS_spec hs).2.2.2.1.nodes
   rw [hn]
 
-/-- the repaired connected step is the modelled original one (`HG.lccInPlace`) whenever there is a component,
-    i.e. on every network with a node; on the null network the original raises `ValueError` -/
-theorem lccInPlace'_eq {t : HG} {c : List PyId} (hc : largestComponent t = some c) : lccInPlace' t = lccInPlace t := by
-  unfold lccInPlace' lccInPlace largestOrEmpty; rw [hc]; rfl
+/-- the connected step of this file is the shared model's `HG.lccInPlace` (which, since the repair
+    `max(..., default=set())` was applied to /repo, no longer raises on the null network) -/
+theorem lccInPlace'_eq (t : HG) : lccInPlace' t = lccInPlace t := rfl
 
 theorem lccInPlace_null {t : HG} (hc : largestComponent t = none) :
-    lccInPlace t = (t, .err .valueError) ∧ (t.frozen = false → lccInPlace' t = (t, .ok)) := by
-  refine ⟨by unfold lccInPlace; rw [hc], ?_⟩
+    lccInPlace t = lccInPlace' t ∧ (t.frozen = false → lccInPlace' t = (t, .ok)) := by
+  refine ⟨rfl, ?_⟩
   intro hf
   unfold lccInPlace' largestOrEmpty; rw [hc]
   simp only [Option.getD_none, List.not_mem_nil, not_false_eq_true, decide_true]
@@ -1141,7 +1140,7 @@ example : (lch demo).1.nodes = [.int 1, .int 2, .int 3] := by decide
 example : (relabel demo "label").1.mem (.int 1) = [.int 1, .int 2] := by decide
 example : ((cleanup' demo false false false true true).map (fun r => (r.2, r.1.nodes, r.1.edges))) =
     some (.ok, [.int 0, .int 1, .int 2], [.int 0, .int 1]) := by decide
-/-- the repaired connected step leaves the null network alone (the unchanged code raises `ValueError` here) -/
+/-- the repaired connected step leaves the null network alone (before the repair the code raised `ValueError` here) -/
 example : ((cleanup' HG.empty false false false true true).map (·.2)) = some .ok := by decide
-example : ((HG.cleanup HG.empty false false false true true).map (·.2)) = some (.err .valueError) := by decide
+example : ((HG.cleanup HG.empty false false false true true).map (·.2)) = some .ok := by decide
 end Xgi.C19
